@@ -207,6 +207,69 @@ def unreachable_case(g, starts, r, tags, meta=None, in_domain=True):
     return Case(req, out, in_domain=dom, meta=m, nontrivial_key=key, tags=tags)
 
 
+def unreachable_spec_case(g, starts, r, tags, meta=None):
+    """LARGE in-domain inputs: only the proved-sound BFS specification is applied to the implementation's output by the
+    driver (op `unreachable_spec`); the matrix model is not evaluated, so there is no model/implementation comparison"""
+    out = call_impl(impl_unreachable, g, starts, r)
+    req = [Atom("C11"), Atom("unreachable_spec"), enc_graph(g), [int(s) for s in starts], int(r)]
+    n = g.number_of_nodes()
+    key = hkey("U", req) if not isinstance(out, ImplError) and 0 < len(out) < n and starts else None
+    m = {"op": "unreachable_spec", "starts": [int(s) for s in starts], "r": r}
+    m.update(meta or {})
+    return Case(req, out, in_domain=n > 0 and all(s in g for s in starts), meta=m, nontrivial_key=key,
+                compare_model=False, tags=tags)
+
+
+def big_shapes():
+    """(name, edge list over 0..n-1, n): long, thin graphs whose diameter allows radii at which the int64 walk counts of
+    get_unreachable_nodes exceed 2^63 although the answer is not trivial"""
+    out = []
+    # chain of 24 five-cliques, consecutive cliques joined by one bond
+    e, k = [], 24
+    for c in range(k):
+        b = 5 * c
+        e += [(b + i, b + j) for i in range(5) for j in range(i + 1, 5)]
+        if c + 1 < k:
+            e.append((b + 4, b + 5))
+    out.append(("clique-chain(24xK5)", e, 5 * k))
+    # polyacene: 35 linearly fused six-rings = ladder with a rung at every second position
+    m = 70
+    e = [(i, i + 1) for i in range(m)] + [(m + 1 + i, m + 2 + i) for i in range(m)] + [(i, m + 1 + i) for i in range(0, m + 1, 2)]
+    out.append(("polyacene(35 rings)", e, 2 * (m + 1)))
+    # long cycle and long path
+    out.append(("cycle(C140)", [(i, (i + 1) % 140) for i in range(140)], 140))
+    out.append(("path(P100)+triangles", [(i, i + 1) for i in range(99)] + [(i, i + 2) for i in range(0, 98, 3)], 100))
+    return out
+
+
+def big_cases(rng, per_shape):
+    """in-domain cases in the range where numpy's int64 walk counts wrap around (radius >= 31, still <= diameter + 1)"""
+    cases = []
+    for name, edges, n in big_shapes():
+        scheme = rng.choice(IDSCHEMES)
+        ids = ids_for(rng, n, scheme)
+        order = list(ids)
+        es = [(ids[a], ids[b]) for a, b in edges]
+        if rng.random() < 0.5:
+            rng.shuffle(order)
+            rng.shuffle(es)
+        g = nx.Graph()
+        for i in order:
+            g.add_node(i, symbol="C")
+        for a, b in es:
+            g.add_edge(a, b, bond=1)
+        diam = ecc_bound(g)
+        radii = sorted({r for r in (31, 40, 51, 63, 64, 65, 70, diam - 1, diam, diam + 1) if 31 <= r <= diam + 1})
+        starts_all = [("starts=single-end", [ids[0]]), ("starts=single-middle", [ids[n // 2]]),
+                      ("starts=multiple", [ids[0], ids[n // 3], ids[0]]), ("starts=single-random", [rng.choice(ids)])]
+        picks = [(t, st, r) for t, st in starts_all for r in radii]
+        rng.shuffle(picks)
+        for t, st, r in picks[:per_shape]:
+            cases.append(unreachable_spec_case(g, st, r, ("unreachable", "big:" + name, "ids=" + scheme, t, "r>=31(int64-wrap-range)"),
+                                               {"big": name, "diameter": diam}))
+    return cases
+
+
 def rc_case(g, tags, meta=None):
     out = call_impl(impl_rc, g)
     req = [Atom("C11"), Atom("rc"), enc_graph(g)]
@@ -409,9 +472,10 @@ def run(tier, seed):
     rng = r.rng
     counters = {"bad_wf": 0}
     cases = corpus_cases() + smiles_cases(rng)
+    cases += big_cases(rng, 12 if tier == "quick" else 40)
     if tier == "quick":
-        cases += gen_cases(rng, 14000, False)
-        cases += gen_cases(rng, 3000, True)
+        cases += gen_cases(rng, 12000, False)
+        cases += gen_cases(rng, 2600, True)
         post_check(r, r.evaluate(cases), counters)
     else:
         post_check(r, r.evaluate(cases), counters)
@@ -425,24 +489,39 @@ def run(tier, seed):
         r.driver = real_driver
     bad_wf = counters["bad_wf"]
     r.extra_cov["inputs_violating_theorem_hypotheses"] = bad_wf
+    machinery = []
     if bad_wf:
-        r.violation_lines.append("ERROR property=C11 %d generated inputs are not well-formed graphs (harness defect)" % bad_wf)
+        # a defect of the harness (its generator left the theorems' domain): never a VIOLATION, never a pass -> exit 2
+        machinery.append("ERROR property=C11 %d generated inputs are not well-formed graphs (harness defect)" % bad_wf)
     overflow_probe(r, rng)
     r.assumptions = [
         "networkx graphs are modelled by Model/Graph.lean (insertion-ordered nodes and adjacency); nx.adjacency_matrix entry = number of parallel edges (no 'weight' attributes), checked against the code by this harness",
-        "numpy int64 walk counts are modelled by unbounded Nat; wrap-around is not modelled (int64_wraparound_probe reports it); in-domain cases keep (r+1)*n*maxdeg^r below 2^62",
+        "numpy int64 walk counts are modelled by unbounded Nat; wrap-around is not modelled (int64_wraparound_probe reports it); the cases that are "
+        "compared with the matrix model keep (r+1)*n*maxdeg^r below 2^62",
+        "LARGE in-domain inputs (tags big:*: a chain of 24 five-cliques, a 35-ring polyacene, the cycle C140, a 100-atom path with triangles; any id scheme; "
+        "radii 31..diameter+1, i.e. in the range where the implementation's int64 walk counts exceed 2^63 and wrap around): the property's answer "
+        "(unreachable = not within r steps of a start node) is decided on the implementation's output by the proved-sound BFS specification "
+        "C11.specUnreachable alone (driver op unreachable_spec); the matrix model is NOT evaluated on them (40-80 s per case with unbounded "
+        "naturals), so there is no model/implementation comparison for these cases - they are judged by the specification only",
         "empty graphs (networkx refuses to build the matrix) and start nodes that are not nodes (KeyError) are outside the domain",
         "prune: which fresh id is given to which cut bond is not fixed by the property; model and implementation are compared modulo a renaming of the fresh ids",
     ]
-    return r.finish(
+    rc = r.finish(
         level="proof",
         rule="corpus (F8 witnesses, m19 witness) + ITS.from_smiles reactions + random graphs: 12 shapes (paths, trees, rings, rings with tails, stars, sparse, disconnected, dense, edgeless) x "
              "5 id schemes (0..n-1, from 1, offset, sparse, negative; insertion order shuffled half of the time) x simple/multigraph (parallel edges, self-loops) x start sets "
-             "(empty, single, multiple with duplicates, isolated, lone, reaction centre) x r = 0..diameter+1; ITS-labelled graphs for get_rc / prune_its_to_rc / ITS.prune x insert_hydrogens; "
+             "(empty, single, multiple with duplicates, isolated, lone, reaction centre) x r = 0..diameter+1; large thin graphs (100-142 atoms: clique chain, "
+             "polyacene, long cycle, path with triangles) x radii 31..diameter+1 (int64 wrap-around range) judged by the BFS specification only; ITS-labelled graphs for get_rc / prune_its_to_rc / ITS.prune x insert_hydrogens; "
              "non-trivial = answer neither empty nor everything, distinct by request",
         checker_cmd="cd lean && lake build FGVerif.Proofs.C11 && lake env lean FGVerif/Audit/C11.lean",
         explanation="theorems in lean/FGVerif/Proofs/C11*.lean about Model/C11.lean (walk counting = BFS distance for every graph, start set and radius); model tied to fgutils by differential "
                     "testing; executable specs (BFS `withinList`, declarative pruned-graph description) applied to every implementation output")
+    # exit 1 iff a VIOLATION line was printed; machinery problems are exit 2 (exit 1 if both happened)
+    for ln in machinery:
+        print(ln)
+    if machinery and rc == 0:
+        rc = 2
+    return rc
 
 
 # ---------------------------------------------------------------------------
@@ -497,6 +576,8 @@ def replay(path):
     g = dec_graph(w[2])
     if op == "unreachable":
         c = unreachable_case(g, [int(x) for x in w[3]], int(w[4]), ("replay",))
+    elif op == "unreachable_spec":
+        c = unreachable_spec_case(g, [int(x) for x in w[3]], int(w[4]), ("replay",))
     elif op == "rc":
         c = rc_case(g, ("replay",))
     else:
